@@ -22,11 +22,11 @@ VARIABLES tid, res
 vars == <<tid, res>>
 
 Observe(job) ==
-  LET r == RunProg(job.prog, "", job.provided, EmptyMap, <<>>, job.mode)
+  LET r == RunProg(job.prog, "", job.provided, World0, job.mode)
   IN [id |-> job.id, status |-> r.status,
       values |-> FilterOut(job.prog, r.vals, job.select),
       err |-> r.err, pause |-> r.pause, steps |-> r.steps,
-      calls |-> r.calls, aux |-> Aux(Prop, job)]
+      calls |-> r.calls, done |-> r.done, aux |-> Aux(Prop, job)]
 
 Init == tid \in 1..Len(Jobs) /\ res = "none"
 Next == /\ res = "none"
